@@ -563,6 +563,47 @@ func c13Lexer(c *Ctx, r *Report) {
 			}
 		}
 	}
+	// premise of "blocks on a token send": the three primitives the rule above counts as a send do send — on every
+	// path. An error() that reports only the first error, or an emit that drops empty tokens, returns without
+	// blocking, and a loop that relied on it spins while the parser waits for a token that never comes
+	for _, prim := range []string{"error", "emitValue", "emit", "emitEOF"} {
+		f := c.Func("Parser", "lexer", prim)
+		if f == nil {
+			if prim == "error" || prim == "emitValue" {
+				r.Undecided(clause, "R8 EOF-EXIT", "Parser.(*lexer)."+prim+"/always-sends", "Parser/Lex.go", "lexer primitive not found")
+			}
+			continue
+		}
+		pe := newPathEnum(f.Pkg.TypesInfo)
+		paths, err := pe.Enumerate(f.Decl.Body.List)
+		construct := f.Name + "/always-sends"
+		if err != nil {
+			r.Undecided(clause, "R8 EOF-EXIT", construct, c.pos(f.Decl.Pos()), err.Error())
+			continue
+		}
+		silent := ""
+		for _, p := range paths {
+			if p.Kind == "panic" {
+				continue
+			}
+			sends := false
+			for _, e := range p.Effects {
+				if e.Kind == "send" {
+					sends = true
+				}
+				if e.Kind == "call" && (strings.HasSuffix(e.Term.Name, "lexer).emitValue") || strings.HasSuffix(e.Term.Name, "lexer).emit") || strings.HasSuffix(e.Term.Name, "lexer).error")) {
+					sends = true
+				}
+			}
+			if !sends {
+				silent = p.CondString()
+				break
+			}
+		}
+		r.Check(silent == "", clause, "R8 EOF-EXIT", construct, c.pos(f.Decl.Pos()),
+			fmt.Sprintf("all %d path(s) through %s send a token: a loop that calls it once per iteration is paced by the parser", len(paths), prim),
+			fmt.Sprintf("%s can return without sending a token (path [%s]): lexer loops that call it at end of input neither leave nor block — the lexer spins and the parser waits for ever", prim, silent))
+	}
 	r.Extra["C13_lexer_loops"] = n
 	if n < 8 {
 		r.Undecided(clause, "R8 EOF-EXIT", "Parser/lexer-loops", "Parser/Lex.go", fmt.Sprintf("only %d input-reading lexer loops found, 11 were confirmed by hand", n))
